@@ -87,13 +87,23 @@ func main() {
 		}
 	case "battle":
 		total += genBattle(out, rng, cnt(1500, 40000))
+		total += genOverLimit(out, rng, cnt(150, 4000))
+		total += genCrowd(out, rng, cnt(3, 40))
+		total += genBigQueue(out, rng, cnt(8, 60))
+	case "bigstep":
+		total += genBigStep(out, rng, cnt(15, 300))
 	case "rot":
 		total += genRot(out, rng, cnt(800, 20000))
+		total += genRotHuge(out, rng, cnt(60, 2000))
 	case "api":
 		if thorough {
 			total += genAPI(out, rng, 4, 20000)
+			total += genLifeCycle(out, rng, 20000)
+			total += genBigQueue(out, rng, 20)
 		} else {
 			total += genAPI(out, rng, 3, 2000)
+			total += genLifeCycle(out, rng, 600)
+			total += genBigQueue(out, rng, 4)
 		}
 	case "config":
 		total += genConfig(out, rng, cnt(300, 5000))
